@@ -379,7 +379,17 @@ def r07_division(ctx):
     ctx.borrow(c08.r08_division, 'R07.12')
 
 
-RULES = [('R07.12', r07_division), ('R07.11', r07_clip), ('R07.10', r07_fixed_point), ('R07.8', r07_vlq), ('R07.9', r07_codec), ('R07-induction', r07_induction), ('R07-scenarios', r07_scenarios), ('R07.5', r07_5), ('R07.4', r07_4), ('R07-file', r07_file)]
+def r07_save_pure(ctx):
+    """save() writes the messages it is given and leaves them alone.  A writer that adjusts the caller's own message objects
+    while encoding (folding the delta of a dropped end_of_track into the next message in place, say) stores wrong deltas as
+    soon as a message object occurs twice in a track, and a different file on the second save: what loads back is then not
+    what the file holds (shared with C16 R16.2 / R16.13, restricted to save)."""
+    from . import c16
+    ctx.borrow(lambda c: c16.r16_2(c, observers=('save',), floor=1), 'R07.13')
+    ctx.borrow(c16.r16_save_leaves_contents, 'R07.13')
+
+
+RULES = [('R07.13', r07_save_pure), ('R07.12', r07_division), ('R07.11', r07_clip), ('R07.10', r07_fixed_point), ('R07.8', r07_vlq), ('R07.9', r07_codec), ('R07-induction', r07_induction), ('R07-scenarios', r07_scenarios), ('R07.5', r07_5), ('R07.4', r07_4), ('R07-file', r07_file)]
 # (r07_1_time - "the delta parameter reaches every returned message", a def-use rule over the reader's return paths - is retired:
 # the reader scenarios and the one-step rules compare the time of every event kind, the unknown meta type included, and do
 # not care whether the time is passed to the constructor or assigned afterwards)
